@@ -45,6 +45,8 @@ def scope(ctx):
 
 
 def run(ctx):
+    from .C15 import rate_definitions
+    rate_definitions(ctx)
     P, cg = ctx.prog, ctx.cg
     fns = scope(ctx)
     ctx.counters["scope_functions"] = len(fns)
